@@ -32,14 +32,14 @@ theorem C05_filters {W : World E L} {T : Tables E} {sort : Sorter E L}
     simp only [Bool.and_eq_true, Bool.or_eq_true, List.isEmpty_iff, List.contains_eq_mem,
       decide_eq_true_eq, Bool.not_eq_eq_eq_not, Bool.not_true, decide_eq_false_iff_not] at this
     exact ⟨this.1, this.2⟩
-  · intro soft e m hal hp
+  · intro soft e m _ hal hp
     cases hp with
     | accepted p acc m' _ _ _ _ ha =>
       obtain ⟨m', _, _, hv, _, _, hm⟩ := probeAccept_spec ha
       cases hv
       have := (mkMatch_spec hm).2.1
       simp only [Match.toSub]; rw [this]; exact hal
-  · intro soft e fb hal hp
+  · intro soft e fb _ hal hp
     cases hp with
     | soft p acc fb' _ _ _ _ hs =>
       rcases probeSoft_spec hs with hv | ⟨fb', hv, _, hm⟩
@@ -131,8 +131,8 @@ theorem canonList_idem {iana : Name → Option Name} {l es : List Name}
 
 /-! ### the current tree -/
 
-abbrev sorterNow : Sorter Name Name := sortUnstable Match.lt
-theorem sorterNow_perm : ∀ l, (sorterNow l).Perm l := sortUnstable_perm _
+abbrev sorterNow : Sorter Name Name := sortMatches
+theorem sorterNow_perm : ∀ l, (sorterNow l).Perm l := sortMatches_perm
 
 /-- C05 (a) for the model instance the driver executes -/
 theorem C05_filters_current (o : Oracle) {b : Bytes} {s : Settings} {incl excl : List Name}
